@@ -386,3 +386,22 @@ Proof.
   pose proof (round_state_is_function_of_sublog r l2 a a Hr H2) as (_ & _ & B1 & B2 & _).
   rewrite He in A1, A2. split; congruence.
 Qed.
+
+Require Import Node.Crash.
+(* non-vacuity: two rounds interleaved on one board (proposal, a confirmation, junk of the other
+   round in between): round 9 after the whole log = round 9 after its own sub-log, and it has moved *)
+Definition ex_confirm (r : tok) : message :=
+  {| m_round := r; m_event := ev_sig_confirm; m_data := 11%N; m_req := MFsm (RPart 0 10); m_sig := SigBy 3%N 11%N;
+     m_sender := 2%N; m_recipient := 0%N; m_tasks := None |}.
+Definition ex_prop (r : tok) : message :=
+  {| m_round := r; m_event := ev_sig_init; m_data := 10%N; m_req := MFsm (RList w_ps 2 0); m_sig := SigNone;
+     m_sender := 2%N; m_recipient := 0%N; m_tasks := None |}.
+Definition ex_log : list (Z * message) :=
+  [(777%Z, ex_prop 9%N); (777%Z, ex_prop 8%N); (777%Z, ex_confirm 8%N); (777%Z, ex_confirm 9%N); (777%Z, ex_confirm 8%N)].
+Example sublog_example :
+  let a := empty_node 2%N 3%N in
+  sublog 9%N ex_log = [(777%Z, ex_prop 9%N); (777%Z, ex_confirm 9%N)] /\
+  tget' (ns_rounds (run_msgs a ex_log)) 9%N = tget' (ns_rounds (run_msgs a (sublog 9%N ex_log))) 9%N /\
+  tget' (ns_rounds (run_msgs a ex_log)) 9%N <> None /\
+  tget' (ns_rounds (run_msgs a ex_log)) 9%N <> tget' (ns_rounds (run_msgs a [(777%Z, ex_prop 9%N)])) 9%N.
+Proof. vm_compute. repeat split; discriminate. Qed.
